@@ -343,3 +343,23 @@ Theorem C01_hyrax_batch_complete :
     default_batch_check (list gel) (list HProof) (list F) (hb_check keylen) cs qs ev pfs ch = Ok (true, ch').
 Proof. exact @hyrax_batch_complete. Qed.
 Print Assumptions C01_hyrax_batch_complete.
+
+(* MarlinKZG10 batch flows: the proofs made by batch_open (one open per point-label group on the shared challenge tape) are
+   accepted by batch_check (KZG10's batch equation over the groups) for the true evaluations, whatever randomizers the verifier
+   draws; the verifier ends on the prover's tape position and draws one randomizer per group.  The second premise is the side
+   condition of the single-point theorem (C01_marlin_complete), asked of every group. *)
+From PC Require Import Proofs.MarlinBatchComplete.
+Theorem C01_marlin_batch_complete :
+  forall (FO : FieldOps) (FL : FieldLaws FO) ck vk g gam h b D hi n m,
+    KeyOK ck vk g gam h b D hi n m ->
+    (forall z items chal a r,
+        Marlin.open_loop ck z items chal MarlinComplete.oacc0 = Ok (a, r) ->
+        is_hiding (trim (Marlin.oa_r a)) = false -> eval (Marlin.oa_sr a) z = f0) ->
+    forall items cs qs ev chal vtape pfs rest,
+      mmaps_agree ck g gam b D m (poly_state_map items) (comm_map cs) ->
+      (forall pl pt labels, In (pl, (pt, labels)) (group_queries qs) -> mevals_true (poly_state_map items) (evals_map ev) pt labels) ->
+      (length (group_queries qs) <= length vtape)%nat ->
+      mbatch_open ck items qs chal = Ok (pfs, rest) ->
+      mbatch_check vk cs qs ev pfs chal vtape = Ok (true, rest, length (group_queries qs)).
+Proof. exact @marlin_batch_complete. Qed.
+Print Assumptions C01_marlin_batch_complete.
